@@ -1225,9 +1225,12 @@ def conf_sig_model(idx, pub, tps, params, ret):
     return f"{idx}/{1 if pub else 0}/{tpm}/f(" + "".join(CONF_TYPES[t] for t in params) + ")" + CONF_TYPES[ret]
 
 
-def conf_cases(rng, n):
+def conf_cases(rng, n, names=("alpha", "beta", "gamma"), fam="conf", force_missing_first=False):
+    """`names`: member names of the interface.  The deterministic `confinit` family (see check_gates)
+    uses `init` — the name of the constructor FUNCTION every struct class gets generated — as the name
+    of a required METHOD: a generated function never implements a method of the same name."""
     out = []
-    names = ["alpha", "beta", "gamma"]
+    names = list(names)
     for _ in range(n):
         k = rng.range(1, 3)
         expected = []
@@ -1238,10 +1241,10 @@ def conf_cases(rng, n):
             expected.append([names[i], True, tps, params, rng.pick(avail + ["unit"])])
         declared = [list(map(lambda x: list(x) if isinstance(x, list) else x, e)) for e in expected]
         what = "ok"
-        if rng.chance(2, 3):
-            j = rng.below(len(declared))
+        if force_missing_first or rng.chance(2, 3):
+            j = 0 if force_missing_first else rng.below(len(declared))
             d = declared[j]
-            m = rng.below(8)
+            m = 0 if force_missing_first else rng.below(8)
             avail = ["int", "bool", "Str", "P"] + [t for t, _ in d[2]]
             if m == 0:
                 declared.pop(j); what = "missing"
@@ -1277,7 +1280,7 @@ def conf_cases(rng, n):
         idx = {nm: i + 1 for i, nm in enumerate(names)}
         line = "conf " + " ".join(conf_sig_model(idx[e[0]], *e[1:]) for e in expected) + " | " + \
             " ".join([conf_sig_model(idx[d[0]], *d[1:]) for d in declared] + (["9/0//f(b)b"] if extra else []))
-        out.append((f"conf/{what}", line, {"Main": src}, "Main"))
+        out.append((f"{fam}/{what}", line, {"Main": src}, "Main"))
     return out
 
 
@@ -1343,6 +1346,11 @@ def check_gates(ctx, rng, stats, hist):
     cases += tya_cases(rng.fork(), ctx.scale(150, 3000))
     cases += [(l, m, p, mod, None) for l, m, p, mod in conf_cases(rng.fork(), ctx.scale(200, 4000))]
     cases += [(l, m, p, mod, None) for l, m, p, mod in bnd_cases(rng)]
+    # deterministic (seed-independent): a required METHOD named like the generated constructor function
+    cases += [(l, m, p, mod, None) for l, m, p, mod in
+              conf_cases(common.Rng(0xC06), 12, names=("init", "beta", "gamma"), fam="confinit", force_missing_first=True)]
+    cases += [(l, m, p, mod, None) for l, m, p, mod in
+              conf_cases(common.Rng(0xC061), 40, names=("init", "beta", "gamma"), fam="confinit")]
     model = run_model([c[1] for c in cases])
     answers = eval_programs([{"sources": c[2], "entry": "Main", "std": False, "compile": True} for c in cases])
     for (label, line, prog, module, spec_bad), m, ans in zip(cases, model, answers):
